@@ -143,6 +143,11 @@ pub fn check_case(c: &TwoHopCase, l: &mut Local, bounds_only: bool) -> Result<()
         l.nontrivial(hash_of(c));
         return Ok(());
     }
+    // A fee-bearing INTERMEDIATE mint is charged once by the two-hop (vault to vault) and twice by two single swaps (through the
+    // trader), so equality with the singles is not claimed there; the trader-facing clauses are decided on the two-hop alone.
+    if s.h.w.fee_in_force(&s.m_mid).is_some() {
+        return check_fee_two_hop(c, &s, &oa, (in0, mid0, out0), (bal(&wa, s.user, &s.m_in), bal(&wa, s.user, &s.m_mid), bal(&wa, s.user, &s.m_out)), l);
+    }
     // --- clone B: the two singles with a matching intermediate amount ---
     let mut wb = s.h.w.clone();
     let neutral = |amount: u64, a_to_b: bool, limit: u128, exact_in: bool| SwapParams { amount, threshold: SwapParams::neutral_threshold(exact_in), sqrt_price_limit: limit, exact_in, a_to_b };
@@ -241,20 +246,67 @@ pub fn check_case(c: &TwoHopCase, l: &mut Local, bounds_only: bool) -> Result<()
     Ok(())
 }
 
+/// two-hop over pools whose intermediate mint carries a transfer fee: amount bounds, intermediate nets to zero, and the threshold
+/// is applied to what the trader actually receives (exact-in) / pays (exact-out)
+fn check_fee_two_hop(c: &TwoHopCase, s: &Setup, oa: &crate::rt::Outcome, before: (u64, u64, u64), after: (u64, u64, u64), l: &mut Local) -> Result<(), String> {
+    let p = &s.params;
+    if !oa.ok() {
+        l.count(&format!("fee_intermediate/two_hop_rejected/{}", oa.code().unwrap_or(0)));
+        return Ok(());
+    }
+    if s.m_in == s.m_out {
+        l.count("fee_intermediate/round_trip_pair_skipped");
+        return Ok(());
+    }
+    let (paid, received) = (before.0.saturating_sub(after.0), after.2.saturating_sub(before.2));
+    if after.1 != before.1 {
+        return Err(format!("trader's intermediate token balance changed by {}", after.1 as i128 - before.1 as i128));
+    }
+    if p.exact_in && paid > p.amount {
+        return Err(format!("two-hop exact-in took {paid} > specified {}", p.amount));
+    }
+    if !p.exact_in && received > p.amount {
+        return Err(format!("two-hop exact-out delivered {received} > specified {}", p.amount));
+    }
+    let realised = if p.exact_in { received } else { paid };
+    for t in [realised.saturating_sub(1), realised, realised.saturating_add(1)] {
+        let mut w = s.h.w.clone();
+        let pt = TwoHopParams { threshold: t, ..p.clone() };
+        let ix = w.ix_two_hop(s.p_one, s.p_two, s.user, &pt, s.v2);
+        let ok = w.exec(&ix).ok();
+        let admits = if p.exact_in { t <= realised } else { t >= realised };
+        if ok != admits {
+            return Err(format!("two-hop (fee-bearing intermediate mint) with threshold {t}: accepted={ok}, the trader's realised {} is {realised}", if p.exact_in { "output" } else { "input" }));
+        }
+    }
+    l.count(&format!("fee_intermediate/thresholds_checked/{}", if p.exact_in { "in" } else { "out" }));
+    l.nontrivial(hash_of(c));
+    Ok(())
+}
+
 pub fn case_strategy() -> BoxedStrategy<TwoHopCase> {
-    let mk = prop_oneof![4 => Just(0u8), 1 => Just(1u8), 1 => Just(2u8)];
+    // 0 SPL, 1 Token-2022, 2 mixed, 3 Token-2022 with transfer fees (each mint with or without a fee schedule)
+    let mk = prop_oneof![4 => Just(0u8), 1 => Just(1u8), 1 => Just(2u8), 3 => Just(3u8)];
+    let tf = || prop_oneof![1 => Just(None), 2 => tf_strategy()];
     (
         // adaptive pools: one in three is created through a permissioned tier with a trade-enable time (already past, about
         // now, or still ahead when the two-hop runs), so "a leg that is not yet tradable" occurs for either leg
-        (history_strategy(false, false, 14), mk.clone(), prop_oneof![2 => Just(None), 1 => prop_oneof![Just(0u32), 1u32..100, 10_000u32..200_000].prop_map(Some)]).prop_map(|(mut h, k, d)| {
+        (history_strategy(false, false, 14), mk.clone(), prop_oneof![2 => Just(None), 1 => prop_oneof![Just(0u32), 1u32..100, 10_000u32..200_000].prop_map(Some)], tf(), tf()).prop_map(|(mut h, k, d, tf1, tf2)| {
             h.spec.mint_kind = k;
+            if k == 3 {
+                h.spec.tf1 = tf1;
+                h.spec.tf2 = tf2;
+            }
             if h.spec.adaptive.is_some() {
                 h.spec.trade_enable_delay = d;
             }
             h
         }),
-        (with_adaptive(spec_strategy(false, false), 4), mk, prop_oneof![2 => Just(None), 1 => prop_oneof![Just(0u32), 1u32..100, 10_000u32..200_000].prop_map(Some)]).prop_map(|(mut s, k, d)| {
+        (with_adaptive(spec_strategy(false, false), 4), mk, prop_oneof![2 => Just(None), 1 => prop_oneof![Just(0u32), 1u32..100, 10_000u32..200_000].prop_map(Some)], tf()).prop_map(|(mut s, k, d, tf2)| {
             s.mint_kind = k;
+            if k == 3 {
+                s.tf2 = tf2;
+            }
             if s.adaptive.is_some() {
                 s.trade_enable_delay = d;
             }
@@ -282,11 +334,11 @@ pub fn case_strategy() -> BoxedStrategy<TwoHopCase> {
 pub fn def() -> CheckDef {
     CheckDef {
         id: "C17",
-        rule: "two pools sharing a mint (mint-key order random, so all four direction combinations occur; SPL Token and extension-free Token-2022 mints), each \
+        rule: "two pools sharing a mint (mint-key order random, so all four direction combinations occur; SPL Token, extension-free Token-2022 mints and Token-2022 transfer-fee mints), each \
                with its own generated history (static or adaptive-fee; a third of the adaptive pools are permissioned with a trade-enable time past / now / ahead); then a two-hop (v1/v2, both modes, optional price limits) on clone A and the two single swaps with the matching \
                intermediate amount on clone B (exact-out: leg two's input learned by a dry run): the COMPLETE account stores must be byte-equal (pools, tick \
                arrays, vaults, every token account); trader pays only leg one's input, receives only leg two's output, intermediate nets to zero; failure \
-               equivalences: either single fails / intermediate amounts differ / same pool twice / no shared mint / threshold missed by one => two-hop fails.  \
+               equivalences: either single fails / intermediate amounts differ / same pool twice / no shared mint / threshold missed by one => two-hop fails; when the INTERMEDIATE mint carries a transfer fee (charged once by the two-hop, twice by two singles) only the trader-facing clauses are decided: amount bounds, intermediate nets to zero, threshold applied to what the trader really receives / pays.  \
                Non-trivial = compared-equal case, or a mismatch/malformed case that was rejected; distinct = hash of the case.",
         assumptions: vec!["nsvm runtime as in DESIGN.md §5", "one leg may be an adaptive-fee pool (oracle accounts compared byte for byte as well)"],
         subs: vec![sub("two_hop", 30_000, 600_000, case_strategy, |c: &TwoHopCase, l: &mut Local| check_case(c, l, false))],
